@@ -34,6 +34,7 @@ type AssignTarget struct {
 	Expr  ast.Expr // x.f, or ghost global name, or Elems(s)
 	Src   string
 	Fresh bool
+	Guard ast.Expr // non-nil: the location is shared between threads and only accessed while holding this mutex
 }
 
 type LoopSpec struct {
@@ -84,6 +85,10 @@ type Contract struct {
 	Asserts   []*SiteAssert
 	ifaceRecv string
 	ifacePkg  *Contract
+	LockInvs       []LockInv
+	ifaceAssigns   []AssignTarget
+	ifaceAssignAll bool
+	hasIfaceFrame  bool
 }
 
 // SiteAssert: an assertion/assumption keyed to a call site in the body ("at call <callee-substring> #k").
@@ -92,6 +97,12 @@ type SiteAssert struct {
 	Ordinal int
 	Before  bool
 	Clause  *Clause
+}
+
+// LockInv: an invariant over the locations guarded by a mutex; it holds whenever the mutex is free.
+type LockInv struct {
+	Mu     ast.Expr
+	Clause *Clause
 }
 
 type GhostStmt struct {
@@ -148,9 +159,10 @@ type GhostField struct {
 }
 
 type GhostVar struct {
-	Name string
-	Type ast.Expr
-	Pkg  *packages.Package
+	Name   string
+	Type   ast.Expr
+	Pkg    *packages.Package
+	Region bool // stands for real memory (an abstract region): counts as memory in thread-frame disjointness
 }
 
 type Binding struct {
@@ -411,6 +423,46 @@ func (s *Specs) loadSpecFile(w *World, path string, pkg *packages.Package, trust
 				}
 				cur.ThreadWG = e
 			}
+		case "guarded":
+			// guarded <mutex>: target, target ...   (thread contracts: lockset discipline for shared locations)
+			if cur == nil {
+				return fail(l, "guarded outside contract")
+			}
+			i := strings.Index(rest, ":")
+			if i < 0 {
+				return fail(l, "guarded <mutex>: targets")
+			}
+			mu, err := parseExprAt(strings.TrimSpace(rest[:i]), path, l.line)
+			if err != nil {
+				return err
+			}
+			ts, _, err := parseAssigns(rest[i+1:], path, l.line)
+			if err != nil {
+				return err
+			}
+			for k := range ts {
+				ts[k].Guard = mu
+			}
+			cur.Assigns = append(cur.Assigns, ts...)
+		case "lockinv":
+			// lockinv <mutex>: [label] expr
+			if cur == nil {
+				return fail(l, "lockinv outside contract")
+			}
+			i := strings.Index(rest, ":")
+			if i < 0 {
+				return fail(l, "lockinv <mutex>: [label] expr")
+			}
+			mu, err := parseExprAt(strings.TrimSpace(rest[:i]), path, l.line)
+			if err != nil {
+				return err
+			}
+			c, err := parseClause(strings.TrimSpace(rest[i+1:]), path, l.line)
+			if err != nil {
+				return err
+			}
+			c.Pkg = pkg
+			cur.LockInvs = append(cur.LockInvs, LockInv{Mu: mu, Clause: c})
 		case "ghost-tags":
 			cur.GhostTags = append(cur.GhostTags, strings.Fields(rest)...)
 		case "replay":
@@ -580,6 +632,17 @@ func (s *Specs) loadSpecFile(w *World, path string, pkg *packages.Package, trust
 				return err
 			}
 			cur.Closures[n] = append(cur.Closures[n], GhostUpdate{Target: te, Value: ve, Src: body})
+		case "region":
+			// region var name map[K]V : abstract memory regions indexed by K (real memory for the race rules)
+			m := regexp.MustCompile(`^var\s+(\w+)\s+(.+)$`).FindStringSubmatch(rest)
+			if m == nil {
+				return fail(l, "region var name Type")
+			}
+			te, err := parseExprAt(m[2], path, l.line)
+			if err != nil {
+				return err
+			}
+			s.GhostVars[m[1]] = &GhostVar{Name: m[1], Type: te, Pkg: pkg, Region: true}
 		case "ghost":
 			// top-level: ghost field (T) name Type | ghost var name Type
 			// in contract: ghost after|before call <callee> [#k]: target = value
